@@ -333,3 +333,7 @@ func SiteHitsSnapshot() []uint32 {
 	}
 	return out
 }
+
+// Heartbeat lets a long operation tell the driver's stall watchdog that the
+// worker is alive (set by the batch loop; a no-op elsewhere).
+var Heartbeat = func() {}
